@@ -236,8 +236,83 @@ def check_child_cursors(ctx, where, node, label, ci=None):
     return n
 
 
+def check_file_backed_raw(ctx):
+    """Round 5.  (g) the file-backed stand-in for bytes (util.SeekableFile) answers raw[a:b] with
+    exactly the bytes a..b of the file, whatever was read before: either a seek to a and a read of
+    b - a, or bytes served from a remembered block under a guard that relates the END of the request
+    to the block.  A block chosen by the start alone truncates a request that crosses its end, so
+    the same packet parses differently depending on where it lies in the file"""
+    repo = ctx.repo
+    rule = 'R14-file-backed-slice'
+    if not repo.has_cls('SeekableFile'):
+        return
+    ci = repo.cls('SeekableFile')
+    fi = ci.methods.get('_slice') or ci.methods.get('__getitem__')
+    if fi is None:
+        ctx.undecided(rule, (ci.file, 'SeekableFile'), 'SeekableFile', 'no _slice / __getitem__ found', ci.node.lineno, clause='g')
+        return
+    w = repo.walker(inline_depth=2, max_paths=ctx.max_paths)
+    n = 0
+    paths = w.paths(fi.node, cls=ci)
+    X = None
+    for p in paths:
+        for e in p.calls():
+            if isinstance(e.call.func, ast.Attribute) and e.call.func.attr == 'indices':
+                X = canon(e.call)
+    if X is None:
+        ctx.undecided(rule, fi, 'SeekableFile._slice', 'the request is not normalised with slice.indices(length)', fi.node.lineno, clause='g')
+        return
+    START, STOP, STEP = X + '[0]', X + '[1]', X + '[2]'
+    for p in paths:
+        if p.raises():
+            continue
+        r = p.ret()
+        if r is None:
+            continue
+        gt = p.guard_texts()
+        if not any(STEP in g and '== 0' in g and not g.startswith('not') for g in gt):
+            continue               # the strided path: built from single-byte reads
+        n += 1
+        label = 'contiguous slice, path [%s]' % '; '.join(g.replace(X, 'S') for g in gt)[:140]
+        short_r = canon(r).replace(X, 'S')[:90]
+        reads = [e for e in p.calls() if isinstance(e.call.func, ast.Attribute) and e.call.func.attr == 'read']
+        seeks = [e for e in p.calls() if isinstance(e.call.func, ast.Attribute) and e.call.func.attr in ('_seek', 'seek')]
+        stores = [e for e in p.all_effects() if e.kind == 'store_attr' and canon(e.obj) == 'self']
+        from_attr = isinstance(r, ast.Subscript) and isinstance(r.value, ast.Attribute) and canon(r.value.value) == 'self'
+        if not from_attr and not stores and len(reads) == 1 and len(seeks) >= 1 and canon(r) == canon(reads[0].call) and len(reads[0].call.args) == 1:
+            if canon(seeks[-1].call.args[0]) == START and lin(reads[0].call.args[0]) == {STOP: 1, START: -1}:
+                ctx.holds(rule, fi, label + ' -> seek(start); read(stop - start)', 'every slice is read from the file at its own position', fi.node.lineno, clause='g')
+            else:
+                ctx.violation(rule, fi, label + ' -> seek(%s); %s' % (canon(seeks[-1].call.args[0]).replace(X, 'S'), short_r), 'the bytes read are not the bytes start..stop of the file', fi.node.lineno, clause='g')
+            continue
+        if from_attr:
+            blk = r.value.attr
+            fills = [e for e in stores if e.name == blk]
+            whole = [e for e in ast.walk(ci.node) if isinstance(e, ast.Assign) and any(isinstance(t, ast.Attribute) and t.attr == blk for t in e.targets)]
+            all_whole = whole and all(isinstance(e.value, ast.Call) and isinstance(e.value.func, ast.Attribute) and e.value.func.attr == 'read' and not e.value.args for e in whole)
+            if all_whole:
+                ctx.holds(rule, fi, label + ' -> %s' % short_r, 'served from the whole file content', fi.node.lineno, clause='g')
+                continue
+            guards_on_end = [g for g in gt if ('self.%s' % blk) in g and STOP in g]
+            if not fills and not guards_on_end:
+                ctx.violation(rule, fi, label + ' -> %s' % short_r, 'the bytes come from the remembered block self.%s, chosen by where the request starts; nothing on this path compares the end of the request with the end of the block, so a request that crosses it is silently cut short' % blk, fi.node.lineno, clause='g', witness=True)
+            else:
+                ctx.undecided(rule, fi, label + ' -> %s' % short_r, 'bytes served from a remembered block: its bookkeeping is not analysed', fi.node.lineno, clause='g')
+            continue
+        ctx.undecided(rule, fi, label + ' -> %s' % short_r, 'not the seek-then-read form', fi.node.lineno, clause='g')
+    if not n:
+        ctx.undecided(rule, fi, 'SeekableFile._slice', 'no contiguous-slice path recognised', fi.node.lineno, clause='g')
+
+
+def _hi(p, fi):
+    return 'stop'
+
+
 def check(ctx):
     repo = ctx.repo
+    check_file_backed_raw(ctx)
+    from .c03 import check_driver_holes
+    check_driver_holes(ctx, rule='R14-raw-relative-to-cursor')
     total_uses = calls = 0
     seen = set()
     for ci, fi, s in unpack_strategies(repo):
